@@ -273,9 +273,21 @@ def load_check(name, case, rec):
         mode = "biaxial"
         rec.label("biaxial-both-faces" if not symb[a2] else "biaxial-symmetric")
     # the reaction is taken from the residual of the last Newton iterate or (items given) from the items' own force vectors
-    jkw = {"items": [body]} if case["ramp"] and int(round(abs(case["ramp"][0]) * 1e4)) % 2 else {}
+    jkw = {"items": [body]} if case["ramp"] and int(round(abs(case["ramp"][0]) * 1e3)) % 2 else {}
     if jkw:
         rec.label("curve-from-item-forces")
+        if name.startswith("uniaxial") and not separate:
+            # a second item of the step that is NOT among the curve's items: a follower pressure on the moved (flat,
+            # displacement-controlled) end face adds to the reaction there, leaves the homogeneous solution alone and must not enter
+            # the recorded force
+            btm = {"quad": fem.RegionQuadBoundary, "quad8": fem.RegionQuadraticQuadBoundary, "quad9": fem.RegionBiQuadraticQuadBoundary,
+                   "hexahedron": fem.RegionHexahedronBoundary, "hexahedron20": fem.RegionQuadraticHexahedronBoundary}[case["kind"]]
+            Pm = np.array(mesh.points)
+            kwb = {"ensure_3d": True} if dim == 2 else {}
+            rbp = btm(mesh, mask=np.isclose(Pm[:, axis], size[axis]), **kwb)
+            fbp = fem.FieldContainer([fem.FieldPlaneStrain(rbp, dim=2) if dim == 2 else fem.Field(rbp, dim=3)])
+            step = fem.Step([body, fem.SolidBodyPressure(fbp, pressure=0.35)], ramp={track: np.array(ramp)}, boundaries=bounds)
+            rec.label("step-holds-a-pressure-item-that-is-not-among-the-curve's-items")
     job = fem.CharacteristicCurve([step], boundary=track, **jkw)
     try:
         job.evaluate(tol=1e-10, **({"x0": fcb} if separate else {}))
